@@ -805,6 +805,13 @@ fn op_enum_map(c: &Value, ev: &mut Map<String, Value>) -> Result<(), String> {
                             Some((name, back))
                         }
                         Some(Err(DecodeError::UnknownAvp(_))) if field == "AttributeType" => None,
+                        // the type's own reader answered with an error about THIS type: the number is dispatched
+                        // (whether that reader is right to complain is C05's question, not C16's)
+                        Some(Err(DecodeError::IncompleteAVP(t))) | Some(Err(DecodeError::InvalidUtf8(t))) | Some(Err(DecodeError::AVPReadError(t)))
+                            if field == "AttributeType" && *t == x =>
+                        {
+                            Some(("error-own".to_string(), None))
+                        }
                         Some(Err(e)) if field == "AttributeType" => Some((format!("error-{e:?}"), None)),
                         _ => None,
                     }
